@@ -529,8 +529,7 @@ func (p *versionParser) version() (*Version, error) {
 		if r != eof {
 			p.isPrerelease = true
 			r = p.metadata(&p.pre, false, "pre-release")
-			l := p.pre[len(p.pre)-1]
-			if l[len(l)-1] != '*' {
+			if len(p.pre) == 0 || !strings.HasSuffix(p.pre[len(p.pre)-1], "*") {
 				p.lex.setErr("missing asterisk at end of prerelease")
 				return nil, p.lex.err
 			}
